@@ -152,7 +152,9 @@ Exprs == <<
   WithNs(AbsP(<<Dos, Step("child", QN("q", "b"), <<>>)>>), <<B("q", "u1")>>, <<SetNs("q", "u2"), SetNs("q", "u1")>>, FALSE),     \* 46  the same prefix twice: the later binding holds
   WithNs(AbsP(<<Dos, Step("child", QN("q", "b"), <<Rel(<<Step("attribute", QN("q", "x"), <<>>)>>)>>)>>),
          <<B("q", "u1")>>, <<SetNs("q", "u1")>>, FALSE),                                                           \* 47  //q:b[@q:x]
-  Flat(140)                                                                                                        \* 48  true() and true() and ... : 140 zero-argument calls in ONE flat expression
+  WithNs(AbsP(<<Dos, Step("child", QN("p", "b"), <<>>)>>), <<B("p", "u2")>>, <<SetNs("p", "u2")>>, FALSE),         \* 48  //p:b with p = u2: the DOCUMENT's p is u1 - the caller's binding counts, nothing is selected
+  WithNs(Fn1("count", AbsP(<<Dos, Step("attribute", QN("p", "x"), <<>>)>>)), <<B("p", "u2")>>, <<SetNs("p", "u2")>>, FALSE),  \* 49  count(//@p:x) with p = u2: 0
+  Flat(140)                                                                                                        \* 50  true() and true() and ... : 140 zero-argument calls in ONE flat expression
 >>
 
 \* ---------------------------------------------------------------------------------------------
@@ -175,7 +177,11 @@ Frags == <<
   Frag(Cp("c") \o <<QU>> \o Cp("d") \o <<39>> \o Cp("e"), TRUE, {"text"}, 0,
        Cp("c") \o <<QU>> \o Cp("d") \o <<39>> \o Cp("e"), FALSE),                                   \* 13 c"d'e  (both quotes)
   \* 14 <q:z xmlns:q="k" q:w="1">x</q:z>   a replacement with a prefix, its declaration and a prefixed attribute
-  Frag(<<60, 113, 58, 122, 32, 120, 109, 108, 110, 115, 58, 113, 61, 34, 107, 34, 32, 113, 58, 119, 61, 34, 49, 34, 62, 120, 60, 47, 113, 58, 122, 62>>, TRUE, {"elem"}, 1, <<>>, FALSE)
+  Frag(<<60, 113, 58, 122, 32, 120, 109, 108, 110, 115, 58, 113, 61, 34, 107, 34, 32, 113, 58, 119, 61, 34, 49, 34, 62, 120, 60, 47, 113, 58, 122, 62>>, TRUE, {"elem"}, 1, <<>>, FALSE),
+  Frag(<<LT>> \o Cp("z") \o <<SL, GT, SP, LT>> \o Cp("y") \o <<SL, GT>>, TRUE, {"elem", "text"}, 2, <<>>, FALSE),   \* 15 <z/> <y/>   white space only BETWEEN two elements is character data like any other
+  Frag(<<SP>>, TRUE, {"text"}, 0, <<SP>>, FALSE),                                                      \* 16 one space
+  \* 17 <z xmlns="k"><y xmlns=""/></z>   the default namespace declared and, inside, undeclared again
+  Frag(<<60, 122, 32, 120, 109, 108, 110, 115, 61, 34, 107, 34, 62, 60, 121, 32, 120, 109, 108, 110, 115, 61, 34, 34, 47, 62, 60, 47, 122, 62>>, TRUE, {"elem"}, 1, <<>>, FALSE)
 >>
 
 ValOf(di, ei) ==
